@@ -174,6 +174,7 @@ class Sim:
         self.obs: list[str] = []
         self.eager = "eager=1" in cfg.split(";")
         self._flushing = False
+        self._in_io = False
         self.app_requests: list = []
         self.conns: list = []          # PeerConnection in creation order
         self.conn_sock: dict = {}
@@ -255,9 +256,10 @@ class Sim:
             self._flushing = True
             try:
                 self.pump_writer(_c)
-                self.io_iteration()
-                self.io_iteration()       # (the first pass may only see the interrupt)
-                self.report_writes()
+                if not self._in_io:       # (the I/O thread cannot overtake itself)
+                    self.io_iteration()
+                    self.io_iteration()   # (the first pass may only see the interrupt)
+                    self.report_writes()
             finally:
                 self._flushing = False
         c.add_out_msg = add_out_msg
@@ -287,6 +289,7 @@ class Sim:
     def io_iteration(self):
         self.env.select_budget = 1
         th = self.node._connection_thread
+        self._in_io = True
         try:
             self.node._handle_connections(th)
         except StopLoop:
@@ -294,6 +297,8 @@ class Sim:
         except Exception as e:  # noqa
             self.obs.append(f"CRASH io {type(e).__name__}")
             self.env.crashes.append(("io", e))
+        finally:
+            self._in_io = False
         self._track_new_conns()
 
     def pump(self):
